@@ -44,6 +44,18 @@ CHECKS = {
  "C16": dict(level="model_checking", design="4/C16", technique="TLA+ DnsRateLimit: exhaustive MC (TLC) of check/deplete interleavings (1 and 2 handlers) + TLC trace validation (RateLimitTrace) of the real token bucket under a virtual clock and of the real cookie validation",
    text="TLC proves Bound and Quiet on the bucket model (one handler; two handlers with burst H*B) and refutes the strict bound under the check/deplete race and Quiet when the minimum charge exceeds the capacity; the real bucket is flooded and left idle under a virtual clock and judged against a fixed envelope; cookies issued under 4 keys x 3 client cookies x 4 client/server addresses are presented unchanged/mangled/cross-address under (current, previous) keys and against the live keys.",
    note="envelope 65536 tokens + 4096/s; the two-bucket limiter and cost function are reached only end-to-end"),
+ "C03": dict(level="model_checking", design="4/C03", technique="TLA+ DnsForward (reply assembly, MC with TLC) + TLC trace validation (ForwardTrace) of the real DnsService in a private network namespace against scripted upstreams",
+   text="Every query/reply pair of the end-to-end rig is judged by TLC: id, question, QR and rcode of the client's reply and section-wise equality (record order, names expanded, types, classes, rdata; TTL only reduced, equal when uncached) with what the scripted upstream sent, both projected by an independent walker; upstream replies are generated structured messages of all rdata shapes, compressed or not, over UDP and TCP, IPv4 and IPv6 upstreams.",
+   note="in-process service in a private namespace (unshare -n -m); real sockets and timers; projections by the harness"),
+ "C07": dict(level="model_checking", design="4/C07", technique="TLA+ DnsForward: exhaustive MC (TLC) of concurrent queries x retransmissions x upstream faults incl. liveness under fairness + TLC trace validation (ForwardTrace) of the real DnsService under scripted fault schedules",
+   text="TLC checks AtMostOne, Own, Served and MaxTransmissions on every interleaving of 3 concurrent queries (UDP and TCP, 2 upstream ids so collisions are reachable, 3 transmissions, 3 adversary faults: loss, wrong id, TC, duplicates, TCP silence) and the leads-to property under weak fairness; the same predicates are evaluated per query on batches of real concurrent queries over IPv4-only, IPv6-only and dual-stack listeners against upstreams executing drop/duplicate/late/wrong-id/TC/reorder/silent schedules, incl. a forced upstream id collision.",
+   note="MC bounds: 3 queries, 2 ids, MaxTx 3; the rig uses real timers (retransmission at 0.8 s x 1.5..2.5)"),
+ "C08": dict(level="model_checking", design="4/C08", technique="TLA+ Acl (independent transcription): exhaustive MC (TLC) of the model's lemmas over all rule lists <= 1 rule + TLC trace validation (AclTrace, ForwardTrace) of acl::require_permission and of the real DNS listeners",
+   text="TLC proves host-bit irrelevance, nesting, mapped-address equivalence, first-match-wins and no-match-no-access on the Acl model, and evaluates Granted(first_match) for every decision of the real require_permission on YAML-loaded rule lists (0..6 rules, v4/v6 prefixes of boundary lengths with and without host bits, unix flag, all permission subsets) x clients (v4, v6, mapped, v4-compatible, loopback, unix) x 4 operations, and for real DNS clients on distinct source addresses (rcode, and whether the upstream saw the question, incl. cached names).",
+   note="HTTP binding (status codes of the API listeners) is covered when the HTTP part of the rig is available"),
+ "C15": dict(level="model_checking", design="4/C15", technique="TLA+ DnsRoute: exhaustive MC (TLC) of permutation/case invariance over small tables + TLC trace validation (ForwardTrace) of the real DnsService with one scripted upstream per route",
+   text="TLC proves on the DnsRoute model that the outcome is invariant under permutation of routes and suffixes and under the case of the name, total, and a server failure without route; for generated tables (1..6 routes x 0..4 suffixes, nested/sibling/empty suffixes, some in upper case) in two permutations and names in lower/upper/mixed case with and without RD, the rcode seen by a real client and the upstream that received the question must match DnsRoute!Outcomes.",
+   note="each query carries a distinct (name, type) so the receiving upstream can be attributed"),
 }
 NOT_APPLICABLE = []
 
